@@ -435,7 +435,7 @@ def check_c18(tier, seed):
     chk.rule = ('TLC enumerates every (indenter configuration, line sequence) of IndentCases.tla (spaces 0..5 or tab, no '
                 'bullets / all / first only, 4 glyphs; <=2 lines of <=2/3 characters incl. blanks), plus all pairs of '
                 'configurations for repeated indentation; IndentLaw is a TLC invariant; each case is replayed through '
-                'Indentizer.to_list, to_str and TextBlock.indent with a header.')
+                'Indentizer.to_list, to_str and TextBlock.indent with a header. Also: the predefined indenters all_dashes_t / initial_dash_t (made between other factory calls), a header handed over as a TextBlock the caller keeps using, the configured-indenter state of TextBlock (set_indentor, indent(x), bare indent()).')
     cfgs = ['IndentCases_quick.cfg', 'IndentCases_twice.cfg'] if tier == 'quick' else \
         ['IndentCases_thorough.cfg', 'IndentCases_twice.cfg']
     for cfg in cfgs:
